@@ -73,6 +73,7 @@ func findLeadingZeroPubChild(seed []byte, limit int) (uint32, bool) {
 
 func runC04(c *Ctx) {
 	c.DeferredOp = "HDObserve"
+	hdSharedFamilies(c, c.Pick(2, 8), c.Pick(8, 60))
 	for n := 0; n < 256; n++ { // the seed generator: every length
 		if c.Thorough() || n <= 70 || n%16 == 0 || n == 255 {
 			c.Call(Event{"op": "GenerateSeed", "n": n})
@@ -748,4 +749,40 @@ func indexByte(s string, b byte) int {
 		}
 	}
 	return -1
+}
+
+// hdSharedFamilies: two families about memory shared between keys that matter for derivation (C04) as much as for
+// independence (C15): several children with leading-zero scalars alive at once, and keys assembled from caller-owned
+// slices inside larger buffers.
+func hdSharedFamilies(c *Ctx, sib, parts int) {
+	r := c.Rng
+	for k := 0; k < sib; k++ {
+		seed := randBytes(r, 32)
+		m, err := hdkeychain.NewMaster(seed, nets[0])
+		if err != nil {
+			continue
+		}
+		var zs []uint32
+		for i := 0; i < 3000 && len(zs) < 3; i++ {
+			idx := uint32(1<<31) + uint32(i)
+			if ch, err := m.Child(idx); err == nil {
+				if sk, err := ch.ECPrivKey(); err == nil && sk.Serialize()[0] == 0 {
+					zs = append(zs, idx)
+				}
+			}
+		}
+		if len(zs) < 2 {
+			continue
+		}
+		calls := []Event{hdCfg(), {"op": "NewMaster", "dst": 1, "seed": ints(seed), "net": 1}}
+		for j, ix := range zs {
+			calls = append(calls, Event{"op": "Child", "src": 1, "dst": 2 + j, "idx": w32(ix)})
+		}
+		calls = append(calls, Event{"op": "Child", "src": 2, "dst": 7, "idx": w32(1)}, Event{"op": "Child", "src": 3, "dst": 8, "idx": w32(1 << 31)},
+			Event{"op": "Child", "src": 1, "dst": 9, "idx": w32(zs[0])})
+		c.Run(calls)
+	}
+	for k := 0; k < parts; k++ {
+		c.Run([]Event{hdCfg(), {"op": "PartsPurity", "seed": ints(randBytes(r, 32)), "private": k%2 == 0}})
+	}
 }
